@@ -15,7 +15,8 @@ RULE = ('hypothesis over the table of maps (vf/manifold_table.py: softplus/exp, 
         'quantum_gate, symmetric_matrix_to_trace1PSD, ABkHermitian, ABk2localHermitian). Oracle: the defining constraints evaluated in complex128; module == functional on '
         'the module parameters; batched == per-sample. Non-trivial = scale>0.5 or batch shape != (3,) or float32 or dim != 7 ... (everything tests/test_manifold.py does not '
         'reach); distinct = (row, option, field, dim, rank, dtype, backend, batch shape, scale, pattern).'
-        ' Scale 1e-6 (tiny non-zero parameter vectors) added for the maps that divide by a norm.')
+        ' Scale 1e-6 (tiny non-zero parameter vectors) added for the maps that divide by a norm.'
+        ' A zero sample in a batch (maps that do not divide by a norm); QR at an exactly vanishing sample; strict positivity judged element by element.')
 ASSUMPTIONS = ['measure-zero singularities are excluded by construction: |theta|>=1e-3 for quotient maps, generic (non rank-deficient) theta for polar/qr/ensemble',
                'float64 constraints at 1e-9 (1e-8 for matrix exp / cayley at scale>=10), float32 at 2e-3; strict interior of interval/ball only for |theta|<=30 (float64) / 12 (float32)',
                'to_stiefel_euler asserts theta.ndim<=2: batch shape (k,l) is a domain restriction for that row',
